@@ -276,11 +276,12 @@ def run_wire(pid, tier, seed, replay):
         if os.path.exists(reg):
             r = seqlib.run_programs(reg, "regress-" + pid)
             run.add_result({"driver": "run-seq", "args": ["run-seq", "--programs", reg], "spec": "MemcTrace", "desc": "regression programs"}, r)
-    if pid == "C13":
-        # the limit that is enforced is the one configured, also above 1 MiB: the memcrsd binary started with
-        # --item-size-limit 3 MiB, a body of exactly the limit is stored, one byte more is refused
+    if pid in ("C13", "C10"):
+        # the limit that is enforced is the one configured, also above 1 MiB and under either runtime type: the memcrsd binary
+        # started with --item-size-limit 3 MiB / 2 KiB, a body of exactly the limit is stored, one byte more is refused (C10:
+        # and therefore not buffered)
         binp = build_memcrsd()
-        for i, (rt, lim) in enumerate([("multi-thread", 3 * 1024 * 1024)] if quick else [("multi-thread", 3 * 1024 * 1024), ("current-thread", 2 * 1024 * 1024), ("multi-thread", 1536 * 1024)]):
+        for i, (rt, lim) in enumerate([("multi-thread", 3 * 1024 * 1024), ("current-thread", 2048)] if quick else [("multi-thread", 3 * 1024 * 1024), ("current-thread", 2 * 1024 * 1024), ("multi-thread", 1536 * 1024), ("multi-thread", 2048), ("current-thread", 2048)]):
             prefix = os.path.join(d, "cfglimit%d" % i)
             st = harness(["cfg-suite", "--bin", binp, "--runtime", rt, "--threads", 2, "--conn-limit", 3, "--item-limit", lim,
                           "--count", 1, "--seed", seed, "--port", ports(30 + i), "--out", prefix], timeout=600)
